@@ -27,6 +27,11 @@ type Schema struct {
 	// implied is true for a schema that was not declared with a schema
 	// block but made from the Query, Mutation and Subscription types.
 	implied bool
+
+	// derived has the names of the fields of an implied schema that were
+	// made from the Query, Mutation and Subscription types. The other fields
+	// were given by an extension.
+	derived map[string]bool
 }
 
 // Rank of the type.
